@@ -10,6 +10,10 @@
 
 #include <boost/gil/extension/io/bmp/tags.hpp>
 
+#include <algorithm>
+#include <cstddef>
+#include <limits>
+
 namespace boost { namespace gil {
 
 #if BOOST_WORKAROUND(BOOST_MSVC, >= 1400)
@@ -100,12 +104,6 @@ public:
             _info._width  = _io_dev.read_uint32();
             _info._height = _io_dev.read_uint32();
 
-            if (_info._height < 0)
-            {
-                _info._height = -_info._height;
-                _info._top_down = true;
-            }
-
             // the number of color planes being used. Must be set to 1.
             _io_dev.read_uint16();
 
@@ -163,11 +161,34 @@ public:
 
             _info._num_colors = _io_dev.read_uint32();
             _info._num_important_colors = _io_dev.read_uint32();
+
+            // the remaining fields of the header are not used, but they have to be there
+            skip_bytes( _info._header_size - bmp_header_size::_win32_info_size );
         }
         else
         {
             io_error( "Invalid BMP info header." );
         }
+
+        // a negative height denotes a top-down bitmap
+        if( _info._height < 0 )
+        {
+            io_error_if( _info._height == (std::numeric_limits< bmp_image_height::type >::min)()
+                       , "Invalid height in BMP file."
+                       );
+
+            _info._height = -_info._height;
+            _info._top_down = true;
+        }
+
+        io_error_if( _info._width < 1 || _info._height < 1
+                   , "Invalid dimension in BMP file."
+                   );
+
+        // row sizes ( up to 4 bytes per pixel, padded to 4 bytes ) are computed in 32 bit
+        io_error_if( _info._width > ( (std::numeric_limits< bmp_image_width::type >::max)() - 3 ) / 4
+                   , "BMP image is too wide."
+                   );
 
         _info._valid = true;
     }
@@ -200,6 +221,20 @@ public:
             }
 
         } // for
+    }
+
+    /// Reads and discards count bytes.
+    void skip_bytes( std::size_t count )
+    {
+        byte_t buffer[64];
+
+        while( count > 0 )
+        {
+            std::size_t const n = (std::min)( count, sizeof( buffer ));
+
+            _io_dev.read_exact( buffer, n );
+            count -= n;
+        }
     }
 
     /// Check if image is large enough.
